@@ -6,7 +6,8 @@
     skipped).  [quiescentb st] = no internal label is enabled (C07_quiescent_is_terminal).
     [broke st] is the ghost flag of the finding class: a cut / stall / upgrade time-out that fell
     inside the commit window (after the client accepted the probe pong, before the server processed
-    UPGRADE), or a timer that closes a transport which has meanwhile become current. *)
+    UPGRADE), or a timer that closes a transport which has meanwhile become current.  Only fault and
+    timer labels raise it. *)
 From SioV Require Import Base.GoSem Base.Conc Eio.Upgrade Eio.UpgradeInv Eio.UpgradeProofs Eio.UpgradeProgress.
 
 (** Exactly once, for ALL schedules outside the finding class: whenever the system has come to
@@ -39,6 +40,16 @@ Theorem C07_no_poll_delivery_after_swap : forall sched,
   let st := run sched init in
   c_ws st = true -> c_loop st <> LFlight /\ k_req st = false /\ k_resp st = RNone.
 Proof. exact no_poll_in_flight_after_swap. Qed.
+
+(** The client never lets anything overtake its UPGRADE packet (write lock held across swap, Discard and
+    UPGRADE; any number of concurrent senders, every schedule): while the server has not upgraded, the
+    candidate websocket carries probe PINGs, then UPGRADE, and application messages only behind it - the
+    server's "invalid packet received" branch (which closes the new transport) is unreachable. *)
+Theorem C07_candidate_gets_only_probe_packets : forall sched,
+  let st := run sched init in
+  s_ws st = false ->
+  pre_ok (k_cs st) = true /\ match k_cs st with [] => True | p :: _ => p = Ping \/ p = Upg end.
+Proof. exact candidate_gets_only_probe_packets. Qed.
 
 (** A close reported by the superseded (old) transport after the swap changes nothing: the socket
     stays open on the new transport, on both sides, in every state. *)
